@@ -768,7 +768,7 @@ theorem push_suffix_partial (deps : List Dep) (pop : UOp) (prt rt : Rt) (suf : S
   simp only [declU, if_true]
   apply push_relabel_core (fun c => c ++ suf) hp cols idx _ hn
   · intro c hc; exact (List.mem_filter.mp hc).1
-  · intro x hx hreq; exact Dx.Cols.suffix_sources hsuf hx hreq
+  · intro x hx hreq; exact Dx.Cols.suffix_sources hx hreq
   · intro x x' _ _ _ he; exact Dx.Cols.append_right_inj' he
 
 end Dx.Meta
